@@ -39,8 +39,8 @@ func mustLogin(t *testing.T, sh *shard, name, pass string) httpCred {
 // ANNOUNCE/SETUP/RECORD inside that session must still need the push right.
 func TestWitnessWsPublishWithoutPushRight(t *testing.T) {
 	t.Parallel()
-	sh := newShard(t, 91)
-	name := "t91viewer"
+	sh := newShard(t, 901)
+	name := "t901viewer"
 	srv.SaveUser(name, "pw", false, sh.ns+"/a", "")
 	defer srv.DelUser(name)
 	cred := mustLogin(t, sh, name, "pw")
@@ -64,8 +64,8 @@ func TestWitnessWsPublishWithoutPushRight(t *testing.T) {
 // not deliver that other path's media.
 func TestWitnessWsPathSwitch(t *testing.T) {
 	t.Parallel()
-	sh := newShard(t, 92)
-	name := "t92viewer"
+	sh := newShard(t, 902)
+	name := "t902viewer"
 	srv.SaveUser(name, "pw", false, sh.ns+"/a", "")
 	defer srv.DelUser(name)
 	cred := mustLogin(t, sh, name, "pw")
@@ -85,9 +85,9 @@ func TestWitnessWsPathSwitch(t *testing.T) {
 // HLS: the right that counts for a segment is the one on the stream's path.
 func TestWitnessHlsSegmentRight(t *testing.T) {
 	t.Parallel()
-	sh := newShard(t, 93)
+	sh := newShard(t, 903)
 	p := sh.live[0] // /t93/a
-	exact, plus := "t93exact", "t93plus"
+	exact, plus := "t903exact", "t903plus"
 	srv.SaveUser(exact, "pw", false, p, "")
 	srv.SaveUser(plus, "pw", false, p+"/+", "")
 	defer srv.DelUser(exact)
@@ -98,11 +98,11 @@ func TestWitnessHlsSegmentRight(t *testing.T) {
 		evid.Violation(t, "witness-hls-playlist", o, "user with pull=%s is refused the playlist of %s", p, p)
 	}
 	evid.Eval(2)
-	if so := sh.hlsSegment(uris[0], ce); !so.Served {
+	if so, _ := sh.hlsSegmentNow(p, 0, ce); !so.Served {
 		witnessFail(t, "hls-segment-right", so, "user with pull=%s got the playlist of %s but is refused its segment %s: status %d %s", p, p, uris[0], so.Status, so.Note)
 		return
 	}
-	if so := sh.hlsSegment(uris[0], cp); so.Served || so.Status == 200 {
+	if so, _ := sh.hlsSegmentNow(p, 0, cp); so.Served || so.Status == 200 {
 		witnessFail(t, "hls-segment-right", so, "user with pull=%s/+ (which does not cover %s) fetched segment %s of %s", p, p, uris[0], p)
 	}
 }
@@ -110,8 +110,8 @@ func TestWitnessHlsSegmentRight(t *testing.T) {
 // A token that belongs to a deleted user grants nothing, not even the stream list.
 func TestWitnessDeletedUserToken(t *testing.T) {
 	t.Parallel()
-	sh := newShard(t, 94)
-	name := "t94gone"
+	sh := newShard(t, 904)
+	name := "t904gone"
 	srv.SaveUser(name, "pw", false, "*", "")
 	cred := mustLogin(t, sh, name, "pw")
 	if st, _ := sh.api("GET", "/api/v1/streams", cred, nil); st != 200 {
@@ -131,8 +131,8 @@ func TestWitnessDeletedUserToken(t *testing.T) {
 // the channel id of user B's session on stream Q and receive Q's media.
 func TestWitnessWspForeignJoin(t *testing.T) {
 	t.Parallel()
-	sh := newShard(t, 96)
-	name := "t96viewer"
+	sh := newShard(t, 906)
+	name := "t906viewer"
 	srv.SaveUser(name, "pw", false, sh.live[0], "")
 	defer srv.DelUser(name)
 	cred := mustLogin(t, sh, name, "pw")
